@@ -269,6 +269,9 @@ func isErrorExit(info *types.Info, list []ast.Stmt) bool {
 		}
 		if r, ok := st.(*ast.ReturnStmt); ok {
 			for _, e := range r.Results {
+				if b, ok := constBool(info, e); ok && !b && len(r.Results) == 1 {
+					return true // bool-returning helper: false = failure
+				}
 				if tv, ok := info.Types[e]; ok && isErrorType(tv.Type) && !tv.IsNil() {
 					return true
 				}
@@ -668,9 +671,20 @@ func (r *rctx) stmts(list []ast.Stmt, paths []*rpath) []*rpath {
 				}
 				continue
 			}
-			// any other branch: interpret both arms
+			// any other branch: interpret both arms; `x == c` on a value read
+			// earlier fixes that field's constant on the then-arm
 			paths = r.forkR(paths, func(p *rpath) []*rpath {
 				a, b := p.clone(), p.clone()
+				if be, ok := ast.Unparen(s.Cond).(*ast.BinaryExpr); ok && be.Op == token.EQL {
+					if o := objOf(info, be.X); o != nil {
+						if v, ok := constInt(info, be.Y); ok {
+							if loc, ok := a.vars[o]; ok {
+								vv := v
+								a.toks[loc.s][loc.i].Const = &vv
+							}
+						}
+					}
+				}
 				return append(r.stmts(s.Body.List, []*rpath{a}), r.stmts(elseList, []*rpath{b})...)
 			})
 		case *ast.SwitchStmt:
@@ -702,6 +716,16 @@ func (r *rctx) stmts(list []ast.Stmt, paths []*rpath) []*rpath {
 						}
 						out = append(out, r.stmts(cc.Body, []*rpath{q})...)
 					}
+				}
+				return out
+			})
+		case *ast.TypeSwitchStmt:
+			paths = r.forkR(paths, func(p *rpath) []*rpath {
+				var out []*rpath
+				for _, cl := range s.Body.List {
+					cc := cl.(*ast.CaseClause)
+					q := p.clone()
+					out = append(out, r.stmts(cc.Body, []*rpath{q})...)
 				}
 				return out
 			})
